@@ -1,322 +1,15 @@
-"""Global behaviour-preserving twins: every check must give the same verdicts (and the same obligation keys).
-  unparse : every module replaced by ast.unparse(ast.parse(src)) (reformatted, comments dropped, lines moved)
-  pad     : 7 blank/comment lines inserted at the top of every module (all line numbers shift)
-"""
-import ast, os, sys
+"""tools/twin_global.py [PIDs…]  (TWIN_KINDS=kind,kind…): every check must give the same verdicts on a behaviour-preserving
+rewrite of the whole repository (see sa/twins.py for the kinds)."""
+import os, sys
 sys.path.insert(0, "/verif")
+from sa import props, twins
 from sa.cli import run_property
-from sa.model import repo_root, AnalysisError, PACKAGES
-from sa import props
-
-class _Renamer(ast.NodeTransformer):
-    """Rename every local variable of every top-level function/method (nested defs included) by appending `_v`."""
-    def __init__(self):
-        self.map = None
-
-    def _unit(self, node):
-        params = set()
-        stores = set()
-        glob = set()
-        for n in ast.walk(node):
-            if isinstance(n, (ast.FunctionDef, ast.AsyncFunctionDef, ast.Lambda)):
-                a = n.args
-                for x in a.posonlyargs + a.args + a.kwonlyargs:
-                    params.add(x.arg)
-                if a.vararg:
-                    params.add(a.vararg.arg)
-                if a.kwarg:
-                    params.add(a.kwarg.arg)
-                if not isinstance(n, ast.Lambda) and n is not node:
-                    stores.add(n.name)
-            elif isinstance(n, ast.Name) and isinstance(n.ctx, (ast.Store, ast.Del)):
-                stores.add(n.id)
-            elif isinstance(n, (ast.Global, ast.Nonlocal)):
-                glob |= set(n.names)
-            elif isinstance(n, ast.ExceptHandler) and n.name:
-                stores.add(n.name)
-            elif isinstance(n, (ast.Import, ast.ImportFrom)):
-                for al in n.names:
-                    glob.add((al.asname or al.name).split(".")[0])
-        return {x: x + "_v" for x in stores - params - glob}
-
-    def visit_FunctionDef(self, node):
-        if self.map is None:
-            self.map = self._unit(node)
-            for i, st in enumerate(node.body):
-                node.body[i] = self.visit(st)
-            self.map = None
-            return node
-        if node.name in self.map:
-            node.name = self.map[node.name]
-        self.generic_visit(node)
-        return node
-
-    def visit_Name(self, node):
-        if self.map and node.id in self.map:
-            node.id = self.map[node.id]
-        return node
-
-    def visit_ExceptHandler(self, node):
-        if self.map and node.name in self.map:
-            node.name = self.map[node.name]
-        self.generic_visit(node)
-        return node
-
-
-class _Assert2If(ast.NodeTransformer):
-    """assert c, m  →  if not c: raise AssertionError(m)"""
-    def visit_Assert(self, node):
-        exc = ast.Call(func=ast.Name(id="AssertionError", ctx=ast.Load()), args=[node.msg] if node.msg else [], keywords=[])
-        return ast.copy_location(ast.If(test=ast.UnaryOp(op=ast.Not(), operand=node.test),
-                                        body=[ast.Raise(exc=exc, cause=None)], orelse=[]), node)
-
-
-class _Logger(ast.NodeTransformer):
-    """Insert a harmless logging call at the start of every function body."""
-    def visit_FunctionDef(self, node):
-        self.generic_visit(node)
-        stmt = ast.parse('__import__("logging").getLogger("emulators").debug("enter")').body[0]
-        i = 1 if (node.body and isinstance(node.body[0], ast.Expr) and isinstance(node.body[0].value, ast.Constant)
-                  and isinstance(node.body[0].value.value, str)) else 0
-        node.body.insert(i, stmt)
-        return node
-
-
-class _Hoister(ast.NodeTransformer):
-    """Inside functions: every non-trivial argument of a call that is the whole value of a simple statement is first
-    bound to a fresh local (`_h3 = <arg>`), left to right, and the call uses the local."""
-    def __init__(self):
-        self.n = 0
-        self.depth = 0
-
-    def visit_FunctionDef(self, node):
-        self.depth += 1
-        node.body = self._block(node.body)
-        self.depth -= 1
-        return node
-
-    def visit_Lambda(self, node):
-        return node
-
-    def _block(self, stmts):
-        out = []
-        for st in stmts:
-            if isinstance(st, (ast.FunctionDef, ast.AsyncFunctionDef)):
-                out.append(self.visit_FunctionDef(st)); continue
-            if isinstance(st, ast.ClassDef):
-                out.append(st); continue
-            for fld in ("body", "orelse", "finalbody"):
-                if isinstance(getattr(st, fld, None), list) and getattr(st, fld) and isinstance(getattr(st, fld)[0], ast.stmt):
-                    setattr(st, fld, self._block(getattr(st, fld)))
-            for h in getattr(st, "handlers", []) or []:
-                h.body = self._block(h.body)
-            if isinstance(st, (ast.Assign, ast.AnnAssign, ast.AugAssign, ast.Expr, ast.Return)) and isinstance(st.value, ast.Call):
-                c = st.value
-                if not any(isinstance(a, ast.Starred) for a in c.args) and all(k.arg for k in c.keywords) \
-                        and not (isinstance(c.func, ast.Name) and c.func.id in ("super", "isinstance", "len", "range", "zip", "enumerate")):
-                    def tmp(e):
-                        if isinstance(e, (ast.Name, ast.Constant)):
-                            return e
-                        if any(isinstance(x, (ast.NamedExpr, ast.Yield, ast.YieldFrom, ast.Await)) for x in ast.walk(e)):
-                            return e
-                        name = f"_h{self.n}"
-                        self.n += 1
-                        out.append(ast.Assign(targets=[ast.Name(id=name, ctx=ast.Store())], value=e, lineno=st.lineno))
-                        return ast.Name(id=name, ctx=ast.Load())
-                    c.args = [tmp(a) for a in c.args]
-                    for k in c.keywords:
-                        k.value = tmp(k.value)
-            out.append(st)
-        return out
-
-
-def _kw_overlay(kind):
-    """kw: positional arguments of statically resolved calls to repository functions become keywords;
-    pos: keyword arguments that continue the positional prefix become positional."""
-    from sa.model import Program
-    from sa.rules import kwswap, util
-    prog = Program()
-    for f in prog.funcs.values():
-        for call in list(util.walk_own(f.node)):
-            if not isinstance(call, ast.Call):
-                continue
-            callee, skip = kwswap._resolve(prog, f, call)
-            if callee is None or any(isinstance(x, ast.Starred) for x in call.args) or any(k.arg is None for k in call.keywords):
-                continue
-            a = callee.node.args
-            if a.vararg or a.posonlyargs or "overload" in getattr(callee, "decorators", ()):
-                continue
-            if callee.node.decorator_list and not (callee.is_static or callee.is_classmethod):
-                continue
-            pos = [x.arg for x in a.args]
-            if skip and pos:
-                pos = pos[1:]
-            if len(call.args) > len(pos):
-                continue
-            if kind == "kw":
-                # keep the first argument positional (most common style), turn the rest into keywords
-                keep = 1 if call.args else 0
-                new_kw = [ast.keyword(arg=pos[i], value=call.args[i]) for i in range(keep, len(call.args))]
-                call.args = call.args[:keep]
-                call.keywords = new_kw + call.keywords
-            else:
-                kws = {k.arg: k for k in call.keywords}
-                i = len(call.args)
-                while i < len(pos) and pos[i] in kws:
-                    call.args.append(kws[pos[i]].value)
-                    call.keywords.remove(kws[pos[i]])
-                    i += 1
-    ov = {}
-    for m in prog.modules.values():
-        if m.relpath.endswith(".py") and m.name.split(".")[0] in PACKAGES:
-            ov[m.relpath] = ast.unparse(ast.fix_missing_locations(m.tree)) + "\n"
-            compile(ov[m.relpath], m.relpath, "exec")
-    return ov
-
-
-class _IfExp2If(ast.NodeTransformer):
-    """x = a if c else b   →   if c: x = a  else: x = b   (plain single-target assignments inside functions)"""
-    def visit_Assign(self, node):
-        if isinstance(node.value, ast.IfExp) and len(node.targets) == 1 and isinstance(node.targets[0], (ast.Name, ast.Attribute)):
-            import copy
-            a = ast.Assign(targets=[copy.deepcopy(node.targets[0])], value=node.value.body, lineno=node.lineno)
-            b = ast.Assign(targets=[copy.deepcopy(node.targets[0])], value=node.value.orelse, lineno=node.lineno)
-            return ast.copy_location(ast.If(test=node.value.test, body=[a], orelse=[b]), node)
-        return node
-
-    def visit_ClassDef(self, node):
-        for i, st in enumerate(node.body):
-            if isinstance(st, (ast.FunctionDef, ast.AsyncFunctionDef)):
-                node.body[i] = self.visit(st)
-        return node
-
-    def visit_Module(self, node):
-        for i, st in enumerate(node.body):
-            if isinstance(st, (ast.FunctionDef, ast.AsyncFunctionDef, ast.ClassDef)):
-                node.body[i] = self.visit(st)
-        return node
-
-
-def _ends_abruptly(body):
-    return bool(body) and isinstance(body[-1], (ast.Return, ast.Raise, ast.Continue, ast.Break))
-
-
-class _EarlyElse(ast.NodeTransformer):
-    """if c: ...; return X        →   if c: ...; return X
-       rest                            else: rest"""
-    def _block(self, stmts):
-        out = []
-        for i, st in enumerate(stmts):
-            st = self.visit(st)
-            if isinstance(st, ast.If) and not st.orelse and _ends_abruptly(st.body) and i + 1 < len(stmts):
-                rest = self._block(stmts[i + 1:])
-                st.orelse = rest
-                out.append(st)
-                return out
-            out.append(st)
-        return out
-
-    def generic_visit(self, node):
-        super().generic_visit(node)
-        for fld in ("body", "orelse", "finalbody"):
-            b = getattr(node, fld, None)
-            if isinstance(b, list) and b and isinstance(b[0], ast.stmt) and not isinstance(node, (ast.Module, ast.ClassDef)):
-                setattr(node, fld, self._block_novisit(b))
-        return node
-
-    def _block_novisit(self, stmts):
-        out = []
-        for i, st in enumerate(stmts):
-            if isinstance(st, ast.If) and not st.orelse and _ends_abruptly(st.body) and i + 1 < len(stmts):
-                st.orelse = self._block_novisit(stmts[i + 1:])
-                out.append(st)
-                return out
-            out.append(st)
-        return out
-
-
-class _NotSwap(ast.NodeTransformer):
-    """if c: A else: B   →   if not c: B else: A   (only when both arms exist and the else arm is not an elif chain)"""
-    def visit_If(self, node):
-        self.generic_visit(node)
-        if node.orelse and not (len(node.orelse) == 1 and isinstance(node.orelse[0], ast.If)):
-            node.test = ast.UnaryOp(op=ast.Not(), operand=node.test)
-            node.body, node.orelse = node.orelse, node.body
-        return node
-
-
-class _CmpFlip(ast.NodeTransformer):
-    """a < b → b > a, a <= b → b >= a, a == b → b == a, a != b → b != a (single-operator comparisons)"""
-    FLIP = {ast.Lt: ast.Gt, ast.Gt: ast.Lt, ast.LtE: ast.GtE, ast.GtE: ast.LtE, ast.Eq: ast.Eq, ast.NotEq: ast.NotEq}
-
-    def visit_Compare(self, node):
-        self.generic_visit(node)
-        if len(node.ops) == 1 and type(node.ops[0]) in self.FLIP:
-            return ast.copy_location(ast.Compare(left=node.comparators[0], ops=[self.FLIP[type(node.ops[0])]()],
-                                                 comparators=[node.left]), node)
-        return node
-
-
-_SIMPLE = {"ifexp2if": _IfExp2If, "earlyelse": _EarlyElse, "notswap": _NotSwap, "cmpflip": _CmpFlip}
-
-
-def overlay(kind):
-    if kind in ('kw', 'pos'):
-        return _kw_overlay(kind)
-    ov = {}
-    root = repo_root()
-    for pkg in PACKAGES:
-        for dp, dn, fn in os.walk(os.path.join(root, pkg)):
-            for f in fn:
-                if f.endswith(".py"):
-                    rel = os.path.relpath(os.path.join(dp, f), root)
-                    src = open(os.path.join(dp, f)).read()
-                    if kind == "unparse":
-                        ov[rel] = ast.unparse(ast.parse(src)) + "\n"
-                    elif kind == "rename":
-                        ov[rel] = ast.unparse(ast.fix_missing_locations(_Renamer().visit(ast.parse(src)))) + "\n"
-                        compile(ov[rel], rel, "exec")
-                    elif kind == "assert2if":
-                        ov[rel] = ast.unparse(ast.fix_missing_locations(_Assert2If().visit(ast.parse(src)))) + "\n"
-                        compile(ov[rel], rel, "exec")
-                    elif kind in _SIMPLE:
-                        ov[rel] = ast.unparse(ast.fix_missing_locations(_SIMPLE[kind]().visit(ast.parse(src)))) + "\n"
-                        compile(ov[rel], rel, "exec")
-                    elif kind == "hoist":
-                        ov[rel] = ast.unparse(ast.fix_missing_locations(_Hoister().visit(ast.parse(src)))) + "\n"
-                        compile(ov[rel], rel, "exec")
-                    elif kind == "log":
-                        ov[rel] = ast.unparse(ast.fix_missing_locations(_Logger().visit(ast.parse(src)))) + "\n"
-                        compile(ov[rel], rel, "exec")
-                    else:
-                        ov[rel] = "# pad\n" * 7 + src if not src.startswith("from __future__") else src.replace("\n", "\n" + "# pad\n" * 7, 1)
-    return ov
 
 bad = 0
-KINDS = [k for k in os.environ.get("TWIN_KINDS", "unparse,pad,rename,log").split(",")]
-for kind in KINDS:
-    ov = overlay(kind)
+kinds = [k for k in os.environ.get("TWIN_KINDS", ",".join(twins.ALL_KINDS)).split(",") if k]
+for kind in kinds:
     for pid in (sys.argv[1:] or props.ids()):
-        try:
-            base, _ = run_property(pid, "quick")
-            tw, _ = run_property(pid, "quick", overlay=ov)
-        except AnalysisError as e:
-            print(f"{kind} {pid}: ANALYSIS-ERROR {e}"); bad += 1; continue
-        except Exception as e:
-            import traceback
-            tb = traceback.extract_tb(e.__traceback__)[-1]
-            print(f"{kind} {pid}: CRASH {type(e).__name__} {e} at {tb.filename}:{tb.lineno}"); bad += 1; continue
-        b = {o.key: o.ok for o in base.obs}
-        t = {o.key: o.ok for o in tw.obs}
-        from collections import Counter
-        if b != t and Counter((o.rule, o.ok) for o in base.obs) == Counter((o.rule, o.ok) for o in tw.obs) \
-                and not any(v is False for k, v in t.items() if b.get(k) is not False):
-            diff = [k for k in set(b) | set(t) if b.get(k) != t.get(k)]
-            print(f"{kind} {pid}: identical verdicts per rule; {len(diff)} obligation key(s) are spelled differently")
-        elif b != t:
-            bad += 1
-            diff = [(k, b.get(k), t.get(k)) for k in set(b) | set(t) if b.get(k) != t.get(k)]
-            print(f"{kind} {pid}: {len(diff)} obligation(s) differ, e.g. {diff[:3]}")
-        else:
-            print(f"{kind} {pid}: identical ({len(b)} obligations)")
+        verdict, detail = twins.compare(pid, kind)
+        print(f"{kind} {pid}: {'identical (' + detail + ')' if verdict == 'identical' else detail}")
+        bad += verdict in ("differs", "error")
 sys.exit(1 if bad else 0)
